@@ -123,7 +123,8 @@ class MultiAgentTrajectoryExporter:
             self.domain,
             previous_state,
             executed_actions,
-            allow_inapplicable_actions=allow_inapplicable_actions,
+            allow_inapplicable_actions=allow_inapplicable_actions
+            or self.allow_invalid_actions,
             problem_objects=problem_objects,
         )
         return MultiAgentTrajectoryTriplet(
